@@ -817,6 +817,15 @@ func genC18(t *rapid.T) C18Case {
 	case "private":
 		priv := C18SnapDBI{Name: rapid.SampledFrom([]string{"_sync_shadow_d0", "_sync_meta", "_sync"}).Draw(t, "pname"),
 			Entries: []C18Entry{{Key: []byte("a"), TS: 9999, Val: model.ValOf([]byte("evil"))}}}
+		// whatever a private DBI declares (transform, flags) is of no concern: it is ignored as a whole
+		switch rapid.IntRange(0, 4).Draw(t, "pshape") {
+		case 1:
+			priv.Transform = rapid.SampledFrom([]string{"dupsort_hack_v1", "zstd_dict_v1", "rot13"}).Draw(t, "ptransform")
+		case 2:
+			priv.Flags = uint64(lmdb.DupSort)
+		case 3:
+			priv.Transform, priv.Flags = "dupsort_hack_v1", 0x08
+		}
 		pos := rapid.IntRange(0, len(c.Snap)).Draw(t, "ppos")
 		c.Snap = append(c.Snap[:pos:pos], append([]C18SnapDBI{priv}, c.Snap[pos:]...)...)
 	case "override":
@@ -857,7 +866,7 @@ func sortC18(int4 bool, es []C18Entry) {
 
 func TestC18Atomic(t *testing.T) {
 	vcore.Run(t, vcore.Config{Property: "C18", Inflight: true,
-		Rule: "rapid: pre-existing native or shadow LMDB (0-3 DBIs, plain / integer keys) + snapshot of 1-4 DBIs under format version 0..4 / compat 0..4 with one injected failure class (unsupported or inconsistent transform, dupsort flag, malformed key at any position, one entry damaged at the protobuf wire level (truncated unknown fixed32/fixed64/bytes/varint field, cut tag, invalid wire type, entry cut short; DBI framing intact), stored value without header, map full at a generated fill, cancellation, private DBIs, override_create_flags) and optionally a concurrent reader; error => byte-exact dump and LastTxnID unchanged; nil => reference merge (v1: empty = deletion); must-refuse and must-accept classes derived from the snapshot; " +
+		Rule: "rapid: pre-existing native or shadow LMDB (0-3 DBIs, plain / integer keys) + snapshot of 1-4 DBIs under format version 0..4 / compat 0..4 with one injected failure class (unsupported or inconsistent transform, dupsort flag, malformed key at any position, one entry damaged at the protobuf wire level (truncated unknown fixed32/fixed64/bytes/varint field, cut tag, invalid wire type, entry cut short; DBI framing intact), stored value without header, map full at a generated fill, cancellation, private DBIs (plain, or declaring transforms / flags that would be refused on an application DBI), override_create_flags) and optionally a concurrent reader; error => byte-exact dump and LastTxnID unchanged; nil => reference merge (v1: empty = deletion); must-refuse and must-accept classes derived from the snapshot; " +
 			"non-trivial = refused after >=1 entry/DBI was applied, or accepted with >=2 DBIs under a non-current format version"},
 		genC18, checkC18)
 }
